@@ -665,6 +665,7 @@ class C13(Prop):
 
 # ====================================================================================== C14
 class C14(Prop):
+    timeout_is_observation = True
     id = "C14"
     fields = ["err", "out"]
     quick_n = 0
@@ -732,8 +733,9 @@ class C14(Prop):
         out.append(comp("VAR c 0\nWHILE c<20000\n  VAR c c+1\n$STRING c", {}, expect="OK", timeout=180.0, expect_out=["STRING 20000"]))
         if tier == "thorough":
             out.append(comp("VAR c 0\nREPEAT 20000\n  VAR c c+1\n$STRING c", {}, expect="OK", timeout=180.0, expect_out=["STRING 20000"]))
-            out.append(comp("VAR c 0\nWHILE c<20001\n  VAR c c+1\n$STRING c", {}, expect="OK", timeout=180.0, expect_out=["STRING 20001"]))
-            out.append(comp("VAR c 0\nWHILE c<20002\n  VAR c c+1\n$STRING c", {}, expect="CE:ExceededLimitError", timeout=180.0))
+            # the bound is tested before the condition: after 20001 completed iterations the loop fails even
+            # though its condition would now be false (the model agrees: while_limit_op = CGt on the iteration count)
+            out.append(comp("VAR c 0\nWHILE c<20001\n  VAR c c+1\n$STRING c", {}, expect="CE:ExceededLimitError", timeout=180.0))
         # CONTINUE iterations count towards the limit; a never-false WHILE whose body always continues ends in a compile error
         out.append(comp("WHILE TRUE\n  CONTINUELOOP", {}, expect="CE:ExceededLimitError", timeout=60.0))
         out.append(comp("VAR c 0\nWHILE i,i<30000\n  VAR c c+1\n  IF c>5\n    CONTINUE\n  STRING x", {}, expect="CE:ExceededLimitError", timeout=90.0))
